@@ -214,6 +214,8 @@ def strip_fields(d, names):
 
 def model_dump(docs, schema, field_names):
     """Same shape as dump.real_dump (uid-keyed, document-number free)."""
+    from whoosim.workload import expand_names
+    field_names = expand_names(field_names)
     out = {"docs": {}, "terms": {}, "doc_count": len(docs)}
     colfields = [n for n in field_names if schema[n].column_type]
     for d in docs:
